@@ -336,9 +336,39 @@ def job_search(N, Ks, KL, NS, tier):
         okq = solver.entails(p.pc, goal, True, asm, timeout_ms=5000)
         if okq:
             res.add_raw(pk, "holds", "z3: path condition entails the documented case for returned index %d" % i)
+            continue
+        # candidate: model of (path condition & not documented case), replayed on the native build
+        z = solver.Z()
+        fs, atoms = [], set()
+        for c_, pol in asm + p.pc + [(goal, False)]:
+            f, side = z.cond(c_, pol)
+            fs.append(f)
+            fs += side
+            solver.cond_atoms(c_, atoms)
+        rs, m, dt = solver.check(fs, 8000, want_model=True)
+        w = None
+        if rs == "sat":
+            vals = solver.model_values(z, m)
+            env = {T.ATOM_LIST[a_][1]: v_ for a_, v_ in vals.items() if T.ATOM_LIST[a_][0] == "sym"}
+            inp = [env.get("r%d" % q, 0.0) for q in range(N)] + [env.get("t", 0.0)]
+            got = int(h.native(fn, inp, 1)[0])
+            rr, tt = inp[:N], inp[N]
+            if tt < rr[0]:
+                want = N
+            elif tt >= rr[-1]:
+                want = N - 1
+            else:
+                want = max(q for q in range(N - 1) if rr[q] <= tt < rr[q + 1]) if any(rr[q] <= tt < rr[q + 1] for q in range(N - 1)) else None
+            if want is not None and got != want:
+                w = (inp, got, want)
+        if w:
+            res.add_raw(pk, "violated", "z3 model replayed natively: range %r query %r returns index %d, documented cases give %d" % (w[0][:N], w[0][N], w[1], w[2]))
+            if not any(x["key"] == "binary_interval_search/N%d" % N for x in res.violations):
+                res.violations.append({"key": "binary_interval_search/N%d" % N, "what": "binary_interval_search(%r, %r) returns index %d, the documented cases require %d" % (w[0][:N], w[0][N], w[1], w[2]),
+                                       "replay": {"property": PID, "key": "binary_interval_search/N%d" % N, "tu_name": h.name, "tu_text": h.text, "fn": fn, "inputs": w[0], "nout": 1,
+                                                  "native": [float(w[1])], "obligation": "documented cases", "lhs": str(w[1]), "rhs": str(w[2]), "err": 1.0, "tol": 0.0}})
         else:
-            res.add_raw(pk, "violated", "returned index %d not justified by the documented cases on path [%s]" % (i, p.pc_str()[:160]))
-            res.violations.append({"key": "binary_interval_search/N%d" % N, "what": "binary_interval_search returns index %d on path [%s], which violates the documented cases" % (i, p.pc_str()[:300])})
+            res.add_raw(pk, "undecided", "documented case for index %d not entailed (z3 %s) and no native counterexample" % (i, rs))
     res.bounds.add("binary_interval_search: every sorted range (repeats allowed) of length %d and every query, reals" % N)
     return res
 
